@@ -3,9 +3,9 @@
 //! registers; every operation names the registers it goes through, so a program can edit
 //! through handles obtained just before the edit or through handles obtained earlier.
 //!
-//! case fields: [dump, init, prog, prog, ...]; record: p0=<run>|p1=<run>|...
-//!   run   = init=<state>|steps=<step>/<step>/...      (a panic ends the run with /PANIC)
-//!   state = <hex root text>:<strict from_str ok><parse_relaxed(_,true) without errors>[:<live>:<reread>]
+//! case fields: [dump, init, note, prog, prog, ...]; record: i0=<state>|s0=<steps>|i1=...|s1=...
+//!   steps = <step>/<step>/...      (a panic ends the run with /PANIC)
+//!   state = <hex root text>:<strict from_str ok><parse_relaxed(_,true) without errors>[:<live>:<reread>:<entry texts>]
 //!   step  = <outcome>:<state>:<text of the handle the operation went through, or ->
 use crate::util::*;
 use debian_control::lossless::relations::{Entry, Relation, Relations};
@@ -221,7 +221,19 @@ fn state_s(r: &Relations, dump: bool) -> String {
     let (relaxed, errs) = Relations::parse_relaxed(&text, true);
     let flags = format!("{}{}", b(strict.is_ok()), b(errs.is_empty()));
     if dump {
-        format!("{}:{}:{}:{}", hex(&text), flags, structure_s(r), structure_s(&relaxed))
+        let et: Vec<String> = r
+            .entries()
+            .map(|e| {
+                let t = e.to_string();
+                if t.is_empty() {
+                    "_".to_string()
+                } else {
+                    hex(&t)
+                }
+            })
+            .collect();
+        let et = if et.is_empty() { "-".to_string() } else { et.join(".") };
+        format!("{}:{}:{}:{}:{}", hex(&text), flags, structure_s(r), structure_s(&relaxed), et)
     } else {
         format!("{}:{}", hex(&text), flags)
     }
@@ -425,7 +437,8 @@ fn run(dump: bool, init: &str, prog: &str) -> String {
 pub fn rel_edit(fs: &[&str]) -> String {
     let dump = fs[0] == "1";
     let init = fs[1];
-    let runs: Vec<String> = fs[2..].iter().map(|p| run(dump, init, p)).collect();
+    // fs[2] is the generator's note for the oracle
+    let runs: Vec<String> = fs[3..].iter().map(|p| run(dump, init, p)).collect();
     runs.iter()
         .enumerate()
         .map(|(i, r)| r.replace("init=", &format!("i{}=", i)).replace("steps=", &format!("s{}=", i)))
